@@ -531,9 +531,9 @@ Qed.
    matcher raise *)
 Theorem run_complete_orfree_multi : forall root cand,
   outs_reachable_multi p ->
-  In cand (candidates p g root) ->
+  In cand (candidates fl p g root) ->
   instanceb g p cand s = true ->
-  (forall c, In c (candidates p g root) -> try_candidate fl g p false c <> Err) ->
+  (forall c, In c (candidates fl p g root) -> try_candidate fl g p false c <> Err) ->
   exists m, run fl p g root false = Ok m.
 Proof.
   intros root cand Hreach Ic Hinst NE.
@@ -551,9 +551,9 @@ Theorem run_complete_orfree_multi_closed : forall fl g p s,
   repaired fl = true -> or_free p = true -> topo p = true ->
   forall root cand,
   outs_reachable_multi p ->
-  In cand (candidates p g root) ->
+  In cand (candidates fl p g root) ->
   instanceb g p cand s = true ->
-  (forall c, In c (candidates p g root) -> try_candidate fl g p false c <> Err) ->
+  (forall c, In c (candidates fl p g root) -> try_candidate fl g p false c <> Err) ->
   exists m, run fl p g root false = Ok m.
 Proof.
   intros fl g p s Hrep Hor Htp root cand Hre Ic Hi NE.
